@@ -161,6 +161,14 @@ def query_check(prop, tier):
     # C11: flag placement matters for what counts as invariant text (a literal without case under (?i))
     extra = [("flags", 6 if tier == "quick" else 7)] if prop == "C11" else []
     cases = L.all_cases(tier, with_nest=nest, extra=extra)
+    if prop == "C11":
+        # the same contract for globs that own their expression (into_owned) or were parsed from a string: the text they
+        # report is computed from a re-owned token tree, what they match from the program compiled before
+        rndo = random.Random(C.SEED + 11)
+        for c in [c for c in cases if c["kind"] == "glob" and c["fam"] in ("case", "flags", "cls2", "punct")]:
+            x = rndo.random()
+            if x < (0.3 if tier == "quick" else 1.0):
+                cases.append(dict(c, id=len(cases) + 1, mode="own" if x < (0.15 if tier == "quick" else 0.5) else "parsed"))
     obs_path = L.observe(cases, "dfa", ("alle-" if nest == "exhaustive" else "alln-" if nest else "allf-" if extra else "all-") + tier)
     obs = L.read_ndjson(obs_path)
     by_id = {o["id"]: o for o in obs}
@@ -741,6 +749,31 @@ def check_C18(tier):
     # the real engine on the text itself was recorded (is_match_s); bind tables on seeded paths
     usable = [o["id"] for o in obs if o["outcome"] == "ok" and o["dfa"]["ok"]]
     n_replayed = len(usable) + replay_table_sample(by_id, usable, "C18", per_case=2, max_cases=1500)
+    # directed replays through the real entry point: the string itself and its near neighbours - a separator added at
+    # either end, doubled or followed by a `.` component, a character more or less - judged by the statement itself
+    # (accepted iff equal to the string), whatever the exported automaton says
+    bad_cases = {r["id"] for r in recs if r["t"] == "DISAGREE"}
+    rndd = random.Random(C.SEED + 18)
+    pool = [i for i in usable if i not in bad_cases and by_id[i]["s"]]
+    rndd.shuffle(pool)
+    ws = []
+    for i in pool[:4000 if tier == "quick" else 40000]:
+        t = by_id[i]["s"]
+        near = [t, t + [47], [47] + t, t + [97], t[:-1], [46, 47] + t]
+        if 47 in t:
+            k = t.index(47)
+            near += [t[:k] + [47, 47] + t[k + 1:], t[:k] + [47, 46, 47] + t[k + 1:]]
+        for path in near:
+            exp = path == t
+            ws.append({"id": i, "path": path, "mu": exp, "ma": exp, "im": exp})
+    n_dir, dproblems = L.replay_witnesses(by_id, ws)
+    for p in dproblems:
+        if p["kind"] in ("engine_more", "engine_less", "matched_vs_is_match", "path_given_as_Path_or_OsStr_matches_differently", "panic"):
+            o = by_id[p["id"]]
+            v.disagree({"t": "REPLAY", "kind": p["kind"], "id": p["id"], "path": p.get("path", []), "directed": True},
+                       "escape(%r) = %r: the real is_match %s the path %r" % (C.text(o["s"]), C.text(o.get("escaped", [])),
+                                                                             "accepts" if p["kind"] == "engine_more" else p["kind"] if p["kind"] != "engine_less" else "rejects", C.text(p.get("path", []))))
+    n_replayed += n_dir
     rc = v.finish()
     C.write_evidence("C18", tier, "model_checking", {
         "states": stats["distinct"], "transitions": stats["generated"],
